@@ -346,6 +346,10 @@ def impl_call(name, p, J, dt, seed=None, weighting=False, tensor=None):
             torch.manual_seed(seed)
         out = A.weighting(t) if weighting else A(t)
         res = ("ok", [float(x) for x in out.to(torch.float64).reshape(-1)], out.dtype, tuple(out.shape))
+        if not bool(torch.isfinite(out).all()) and bool(torch.isfinite(t).all()):
+            # comparisons with nan are all False: a non-finite answer to a finite matrix must never
+            # slip through an oracle as "no deviation found" (aggregators are total on finite input)
+            return ("err", "NonFiniteOutputOnFiniteMatrix", None, None)
         for cur, orig in params:
             if cur.shape != orig.shape or not torch.equal(cur, orig):
                 return ("err", "ParameterTensorModifiedByCall", None, None)
